@@ -42,7 +42,8 @@ def handle : Handler := fun op inp _impl => do
       [("C05.terminal_clean", terminalClean ex w x), ("C06.terminal_clean", terminalClean ex w x)] ++
       (match x with
        | some k => [("C01.cluster_exposure", !ex || exposureWithinStep w k), ("C06.cluster_exposure", !ex || exposureWithinStep w k),
-                    ("C04.cluster_no_void", !ex || noVoid w k), ("C06.cluster_no_void", !ex || noVoid w k)]
+                    ("C04.cluster_no_void", !ex || noVoid w k), ("C06.cluster_no_void", !ex || noVoid w k),
+                    ("C01.cluster_supervised", !ex || supervised w k), ("C08.cluster_supervised", !ex || supervised w k)]
        | none => [])
     let rolling := ex && w.ro.phase == .progressing && w.ro.reason == .inRolling
     let routed := match w.net.canaryIng with | some wt => decide (wt > 0) | none => false
@@ -50,7 +51,8 @@ def handle : Handler := fun op inp _impl => do
     return { holds := holds, tags := [s!"snap:{phaseStr w.ro.phase}/{reasonStr w.ro.reason}", if ex then "exists" else "gone"] ++
       (if rolling && (x.map (·.controlled)).getD false then ["exposure-judged"] else []) ++
       (if routed then ["canary-route-live"] else []) ++ (if w.net.stableSel.isSome then ["stable-pinned"] else []) ++
-      (if terminal then ["terminal-judged"] else []) ++ (if !rolling && !routed && !terminal then ["trivial"] else []) }
+      (if terminal then ["terminal-judged"] else []) ++
+      (match jopt inp "lateRelease" with | some (.bool true) => ["guard:releaseWhileFinalising"] | _ => []) ++ (if !rolling && !routed && !terminal then ["trivial"] else []) }
   | "final" =>
     let base ← stateOfJson (← jget inp "baseline")
     let run ← stateOfJson (← jget inp "run")
@@ -59,14 +61,26 @@ def handle : Handler := fun op inp _impl => do
     let recs ← fNat inp "reconciles"
     let steps ← fNat inp "steps"
     let (ex, w, x) := run
+    let disturbed := match jopt inp "disturbed" with | some (.bool b) => b | _ => false
+    -- known finding releaseWhileFinalising: a new revision admitted by the workload webhook while the
+    -- clean-up is running (in-progress annotation already removed) is orphaned
+    let lateRelease ← (match jopt inp "eventAt", jopt inp "event" with
+      | some ea, some (.str ev) => do
+        let ph ← fStr ea "phase"
+        let fs ← fStr ea "finStep"
+        let an ← fBool ea "inProgressAnno"
+        pure ((ev == "rollback" || ev == "release3") && ph == "Progressing" && fs != "" && fs != "END" && !an)
+      | _, _ => pure false)
+    let clean := terminalClean ex w x
+    let budgetOk := decide (recs ≤ 60 * (steps + 4))
     let holds :=
-      [("C07.terminates", done), ("C06.terminates", done), ("C05.final_clean", terminalClean ex w x),
-       ("C06.final_clean", terminalClean ex w x),
+      [("C07.terminates", done), ("C05.final_clean", clean),
        -- a generous linear budget: every step needs a bounded number of rounds of (rollout, BatchRelease) reconciles
-       ("C07.reconcile_budget", decide (recs ≤ 60 * (steps + 4)))] ++
+       ("C07.reconcile_budget", budgetOk)] ++
+      (if disturbed then [("C06.terminates", done), ("C06.final_clean", clean)] else []) ++
       (if same then [("C06.same_final_state", sameFinal base run)] else [])
     return { holds := holds, tags := [if same then "run:disturbed-or-baseline" else "run:user-event", if done then "done" else "notdone",
-      s!"plan:{((← fStr inp "plan").splitOn "@").head!}"] }
+      s!"plan:{((← fStr inp "plan").splitOn "@").head!}"] ++ (if lateRelease then ["guard:releaseWhileFinalising", "late-release"] else []) }
   | _ => .error s!"cluster: unknown op {op}"
 
 end RV.Drv.Cluster
